@@ -350,8 +350,25 @@ class AccConn:
         if body is not None:
             if ctype is not None:
                 msg += f"{spell(ctype_name)}: {ctype}\r\n".encode()
-            msg += f"{spell('Content-Length')}: {len(body)}\r\n".encode()
-        msg += b"\r\n" + (body or b"")
+            if self.acc.reply_chunked and body:
+                # chunked transfer coding (legal for every HTTP/1.1 response): the body in two chunks
+                cut = max(1, len(body) // 2)
+                msg += f"{spell('Transfer-Encoding')}: chunked\r\n\r\n".encode()
+                msg += b"".join(b"%x\r\n" % len(c) + c + b"\r\n" for c in (body[:cut], body[cut:]) if c) + b"0\r\n\r\n"
+                body = None
+            else:
+                msg += f"{spell('Content-Length')}: {len(body)}\r\n".encode()
+        if body is not None or not self.acc.reply_chunked or not msg.endswith(b"0\r\n\r\n"):
+            msg += b"\r\n" + (body or b"")
+        rc = self.acc.reply_cut
+        if rc is not None and cuts is None:
+            # the reply reaches the controller in two reads (plain connection) / two encrypted frames (secure session), cut at this offset
+            # (negative: counted from the end)
+            pos = rc if rc >= 0 else len(msg) + rc
+            if 0 < pos < len(msg):
+                if self.secure:
+                    return self.send_plain(msg, delay=delay, sizes=[pos] + [1024] * 70)
+                cuts = [pos]
         self.send_plain(msg, cuts=cuts, delay=delay)
 
     def encrypt(self, msg: bytes, sizes=None) -> bytes:
@@ -439,6 +456,8 @@ class SimAccessory:
         self.header_names = "title"        # spelling of the header names in everything this accessory sends: title | lower | upper
         self.tape_m2 = None                # raw M2 of the first honest pair-verify (verify policy "tape" replays it without holding any key)
         self.write_status = {}             # (aid, iid) -> HAP status for writes
+        self.reply_chunked = False         # HTTP replies use chunked transfer coding
+        self.reply_cut = None              # every HTTP reply is delivered in two pieces, cut at this offset (negative: from the end)
         self.subscribe_status = {}         # (aid, iid) -> HAP status for ev requests
         self.values = {}
         self.eph_counter = 0
